@@ -416,7 +416,7 @@ CO_STACKS = all_co_stacks()
 CO_RCOL_STACKS = [x for x in CO_STACKS if "map" in x.split(".") and "enum" not in x.split(".")[x.split(".").index("map"):]]
 
 
-def gen_co(rng, count, tag, terms=("fe", "tfe", "col"), stacks=None, drop=0.015, panic=0.02, allready=False):
+def gen_co(rng, count, tag, terms=("fe", "tfe", "col"), stacks=None, drop=0.015, panic=0.02, allready=False, large=False):
     """allready: a source that has every item ready and ends at once, and no reference to the source's wakers: the cases that can also be run over
        Vec::into_co_stream() (co-harness `cov:`), whose trace must equal the stream-source trace without the source's own events"""
     out = []
@@ -424,7 +424,7 @@ def gen_co(rng, count, tag, terms=("fe", "tfe", "col"), stacks=None, drop=0.015,
     for c in range(count):
         term = rng.choice(terms)
         stack = rng.choice([x for x in stacks if x in CO_RCOL_STACKS] if term == "rcol" else stacks)
-        n = rng.randint(0, 5)
+        n = rng.randint(30, 90) if large else rng.randint(0, 5)       # large: sources of many items (nothing in the crate may depend on a source being short)
         nc = 1 + 2 * n
         take = ",".join(str(rng.randint(0, n + 1)) for _ in range(stack.count("take"))) if "take" in stack else "-"
         lim = ",".join(str(rng.choice([0, 1, 1, 2, 3])) for _ in range(stack.count("lim"))) if "lim" in stack else "-"
@@ -440,8 +440,8 @@ def gen_co(rng, count, tag, terms=("fe", "tfe", "col"), stacks=None, drop=0.015,
             src = [f"I{j}" for j in range(n)] + ["E"]
         else:
             for j in range(n):
-                for _ in range(rng.choice([0, 0, 1, 2])):
-                    src.append(cf() + "P")
+                for _ in range(rng.choice([0, 0, 0, 0, 0, 1]) if large else rng.choice([0, 0, 1, 2])):
+                    src.append("!s:P" if large else cf() + "P")
                 src.append(cf() + f"I{j}")
             for _ in range(rng.choice([0, 0, 1])):
                 src.append(cf() + "P")
@@ -450,19 +450,20 @@ def gen_co(rng, count, tag, terms=("fe", "tfe", "col"), stacks=None, drop=0.015,
 
         def work(err):
             st = []
-            for _ in range(rng.choice([0, 0, 1, 2, 3])):
-                st.append(cf() + "P")
+            for _ in range(rng.choice([0, 0, 0, 0, 0, 1]) if large else rng.choice([0, 0, 1, 2, 3])):
+                st.append("!s:P" if large else cf() + "P")       # large: a pending closure future wakes itself, so that polls alone drive the pipeline to the end
             r = rng.random()
-            if r < 1.0 - panic - 0.05:
-                st.append(cf() + (f"F{700+rng.randrange(9)}" if err and rng.random() < 0.3 else "R"))
-            elif r < 1.0 - 0.05:
+            never = 0.003 if large else 0.05       # a closure future that never completes
+            if r < 1.0 - panic - never:
+                st.append(cf() + (f"F{700+rng.randrange(9)}" if err and rng.random() < (0.01 if large else 0.3) else "R"))
+            elif r < 1.0 - never:
                 st.append(cf() + "X")
             return ",".join(st)
         scripts = [",".join(src)] + [work(True) for _ in range(n)] + [work(term == "rcol") for _ in range(n)]
         ops = []
-        for _ in range(rng.randint(2, 40)):
+        for _ in range(rng.randint(60, 160) if large else rng.randint(2, 40)):
             r = rng.random()
-            if r < 0.5:
+            if r < (0.85 if large else 0.5):
                 ops.append("p")
             elif r < 0.55:
                 ops.append("q")
